@@ -41,6 +41,9 @@ pub struct Case {
     /// the options must mean the same on top of an earlier result
     #[serde(default)]
     pub prior: Option<Cmd>,
+    /// this many identical degenerate records at the end of the input (kind 0 = no bases, 1 = one base, 2 = all N)
+    #[serde(default)]
+    pub tail_block: Option<(u8, usize)>,
 }
 
 fn other(c: &Case) -> Cmd {
@@ -102,6 +105,21 @@ pub fn check_case(c0: &Case) -> Verdict {
         }
         c.recs = recs;
         v.class("replicated-records");
+    }
+    if let Some((kind, size)) = c0.tail_block {
+        let seq: Vec<u8> = match (kind % 3, c.cmd.sub) {
+            (0, _) | (2, Sub::Cgr) => Vec::new(),
+            (1, _) => b"A".to_vec(),
+            _ => vec![b'N'; 40],
+        };
+        if seq.is_empty() && c.cont.is_fastq() {
+            c.cont = Container { gz: c.cont.gz.clone(), ..Container::plain_fasta() };
+        }
+        for j in 0..size {
+            c.recs.push(Rec { id: format!("tail{}", j), desc: None, seq: crate::util::Bytes(seq.clone()) });
+        }
+        v.class("degenerate-records-at-the-end");
+        v.class_if(size >= 64, "degenerate-tail>=64-records");
     }
     let c = &c;
     let a = &c.cmd;
@@ -363,7 +381,11 @@ impl Leg for Relations {
                     3 => Just(None).boxed(),
                     1 => cmd_strategy().prop_map(move |(p, _)| if p.out_is_dir() == is_dir && !p.stdin { Some(p) } else { None }).boxed(),
                 ];
-                (gen::records_mixed_in_container(p), gen::records(p), edge, copies, prior).prop_map(move |((mut recs, cont), alt, edge, copies, prior)| {
+                let tail_block = prop_oneof![
+                    6 => Just(None),
+                    1 => (0u8..3, prop_oneof![2 => 1usize..=8, 2 => prop::sample::select(vec![63usize, 64, 65, 100, 127, 128, 129, 200, 256, 500, 1000, 1024, 1500]), 1 => 1usize..=700]).prop_map(Some),
+                ];
+                (gen::records_mixed_in_container(p), gen::records(p), edge, copies, prior, tail_block).prop_map(move |((mut recs, cont), alt, edge, copies, prior, tail_block)| {
                     if let Some(e) = edge {
                         recs.push(Rec { id: "edge_multiplicity".into(), desc: None, seq: crate::util::Bytes(e) });
                     }
@@ -376,7 +398,7 @@ impl Leg for Relations {
                         Some(p) if p.sub == Sub::Cgr && alt.iter().any(|r| r.seq.0.iter().any(|&b| !crate::model::is_base(b))) => None,
                         o => o,
                     };
-                    Case { recs, alt, cont, cmd: cmd.clone(), rel: rel.clone(), copies, prior }
+                    Case { recs, alt, cont, cmd: cmd.clone(), rel: rel.clone(), copies, prior, tail_block }
                 })
             })
             .boxed()
